@@ -666,6 +666,12 @@ impl SvgElement {
             }
         }
         if let Some(bb) = bbox {
+            if bb.width() < 0. || bb.height() < 0. {
+                // (a union / intersection is never inverted: the margin did this)
+                return Err(SvgdxError::InvalidData(format!(
+                    "margin leaves no area to place an element {contain_str} '{ref_list}'"
+                )));
+            }
             self.position_from_bbox(&bb, !is_surround);
         }
         self.add_class(&format!("d-{contain_str}"));
